@@ -15,6 +15,7 @@ Problems(o) == CASE Prop = "C24" -> IF Judge24(o) = "ok" THEN {} ELSE {Facts24(o
                  [] Prop = "C31" -> IF Judge31(o) = "ok" THEN {} ELSE {Facts31(o)}
                  [] Prop = "C27" -> IF Judge27(o) = "ok" THEN {} ELSE {Facts27(o)}
                  [] Prop = "C28" -> Problems28(o)
+                 [] Prop = "C32" -> IF Judge32(o) = "ok" THEN {} ELSE {Facts32(o)}
 
 ASSUME \A i \in 1..Len(Obs) : \A p \in Problems(Obs[i]) : PrintT(<<"REJECT", i, ToJson(p)>>)
 ASSUME PrintT(<<"JUDGED", Len(Obs)>>)
